@@ -36,8 +36,9 @@ PROPS = {
                 "(b) linked policy vs Rust parse of the textually substituted static policy on random worlds. (c) all histories of length <=2 (quick) / <=3 (thorough) "
                 "over 2 ids and a 24-letter op alphabet, merge partner fixed. non-trivial = history with >=1 failed op and >=1 successful link, or a linkeq case; "
                 "distinct by request text",
-        "theorems": ["link_eq_subst", "link_outcome_eq_subst", "link_ok_iff", "pset_link_ok_iff", "op_inv", "op_fail_unchanged", "no_panic", "history_inv", "authorize_considers_exactly_links", "refines_spec_partial"],
-        "assumptions": ["merge_policyset is covered by the correspondence and the harness oracle only (its invariant/refinement theorems are stated, not proved)",
+        "theorems": ["link_eq_subst", "link_outcome_eq_subst", "link_ok_iff", "pset_link_ok_iff", "op_inv", "op_fail_unchanged", "no_panic", "history_inv", "authorize_considers_exactly_links", "api_add_is_add_static", "api_op_inv", "api_history_inv", "refines_spec_partial"],
+        "assumptions": ["merge_policyset is covered by the correspondence and the harness oracle only (MergeInv, RefinesSpec, ApiProjection are stated as `def : Prop`, not proved)",
+                        "core-only histories outside the public API's envelope (core link on a static policy's id, core add of a template-linked Policy, slot-less template) are compared with the model but excluded from the statement's checks; they can break the invariant and reach the panic in unlink",
                         "source locations and the lossless (text/EST/PST) copies kept by the API layer are not modelled"],
     },
 }
